@@ -172,9 +172,9 @@ proofs/CapsProofs.vos proofs/CapsProofs.vok proofs/CapsProofs.required_vos: proo
 properties/C20.vo properties/C20.glob properties/C20.v.beautified properties/C20.required_vo: properties/C20.v gen/Params.vo model/Bytes.vo model/Lru.vo model/Server.vo model/Cache.vo model/Check20.vo proofs/CacheProofs.vo proofs/ServerProofs.vo proofs/CapsProofs.vo model/Calls.vo proofs/CallsProofs.vo
 properties/C20.vio: properties/C20.v gen/Params.vio model/Bytes.vio model/Lru.vio model/Server.vio model/Cache.vio model/Check20.vio proofs/CacheProofs.vio proofs/ServerProofs.vio proofs/CapsProofs.vio model/Calls.vio proofs/CallsProofs.vio
 properties/C20.vos properties/C20.vok properties/C20.required_vos: properties/C20.v gen/Params.vos model/Bytes.vos model/Lru.vos model/Server.vos model/Cache.vos model/Check20.vos proofs/CacheProofs.vos proofs/ServerProofs.vos proofs/CapsProofs.vos model/Calls.vos proofs/CallsProofs.vos
-properties/C06.vo properties/C06.glob properties/C06.v.beautified properties/C06.required_vo: properties/C06.v model/Bytes.vo model/Inflight.vo model/PutQuery.vo model/Calls.vo proofs/InflightProofs.vo proofs/PutQueryProofs.vo proofs/CallsProofs.vo
-properties/C06.vio: properties/C06.v model/Bytes.vio model/Inflight.vio model/PutQuery.vio model/Calls.vio proofs/InflightProofs.vio proofs/PutQueryProofs.vio proofs/CallsProofs.vio
-properties/C06.vos properties/C06.vok properties/C06.required_vos: properties/C06.v model/Bytes.vos model/Inflight.vos model/PutQuery.vos model/Calls.vos proofs/InflightProofs.vos proofs/PutQueryProofs.vos proofs/CallsProofs.vos
+properties/C06.vo properties/C06.glob properties/C06.v.beautified properties/C06.required_vo: properties/C06.v model/Bytes.vo model/Inflight.vo model/PutQuery.vo model/Calls.vo proofs/InflightProofs.vo proofs/PutQueryProofs.vo proofs/CallsProofs.vo model/Rtt.vo proofs/RttProofs.vo
+properties/C06.vio: properties/C06.v model/Bytes.vio model/Inflight.vio model/PutQuery.vio model/Calls.vio proofs/InflightProofs.vio proofs/PutQueryProofs.vio proofs/CallsProofs.vio model/Rtt.vio proofs/RttProofs.vio
+properties/C06.vos properties/C06.vok properties/C06.required_vos: properties/C06.v model/Bytes.vos model/Inflight.vos model/PutQuery.vos model/Calls.vos proofs/InflightProofs.vos proofs/PutQueryProofs.vos proofs/CallsProofs.vos model/Rtt.vos proofs/RttProofs.vos
 proofs/IterQueryProofs.vo proofs/IterQueryProofs.glob proofs/IterQueryProofs.v.beautified proofs/IterQueryProofs.required_vo: proofs/IterQueryProofs.v gen/Params.vo model/Bytes.vo model/Crc32c.vo model/Id.vo model/Node.vo model/BSearch.vo model/Closest.vo model/IterQuery.vo proofs/BSearchProofs.vo proofs/ClosestProofs.vo
 proofs/IterQueryProofs.vio: proofs/IterQueryProofs.v gen/Params.vio model/Bytes.vio model/Crc32c.vio model/Id.vio model/Node.vio model/BSearch.vio model/Closest.vio model/IterQuery.vio proofs/BSearchProofs.vio proofs/ClosestProofs.vio
 proofs/IterQueryProofs.vos proofs/IterQueryProofs.vok proofs/IterQueryProofs.required_vos: proofs/IterQueryProofs.v gen/Params.vos model/Bytes.vos model/Crc32c.vos model/Id.vos model/Node.vos model/BSearch.vos model/Closest.vos model/IterQuery.vos proofs/BSearchProofs.vos proofs/ClosestProofs.vos
@@ -220,6 +220,12 @@ properties/C14.vos properties/C14.vok properties/C14.required_vos: properties/C1
 model/CheckApi.vo model/CheckApi.glob model/CheckApi.v.beautified model/CheckApi.required_vo: model/CheckApi.v model/Bytes.vo
 model/CheckApi.vio: model/CheckApi.v model/Bytes.vio
 model/CheckApi.vos model/CheckApi.vok model/CheckApi.required_vos: model/CheckApi.v model/Bytes.vos
+model/Rtt.vo model/Rtt.glob model/Rtt.v.beautified model/Rtt.required_vo: model/Rtt.v 
+model/Rtt.vio: model/Rtt.v 
+model/Rtt.vos model/Rtt.vok model/Rtt.required_vos: model/Rtt.v 
+model/CheckRtt.vo model/CheckRtt.glob model/CheckRtt.v.beautified model/CheckRtt.required_vo: model/CheckRtt.v model/Rtt.vo
+model/CheckRtt.vio: model/CheckRtt.v model/Rtt.vio
+model/CheckRtt.vos model/CheckRtt.vok model/CheckRtt.required_vos: model/CheckRtt.v model/Rtt.vos
 model/Calls.vo model/Calls.glob model/Calls.v.beautified model/Calls.required_vo: model/Calls.v gen/Params.vo model/Bytes.vo model/PutQuery.vo
 model/Calls.vio: model/Calls.v gen/Params.vio model/Bytes.vio model/PutQuery.vio
 model/Calls.vos model/Calls.vok model/Calls.required_vos: model/Calls.v gen/Params.vos model/Bytes.vos model/PutQuery.vos
@@ -232,6 +238,9 @@ model/NetModel.vos model/NetModel.vok model/NetModel.required_vos: model/NetMode
 model/Check13.vo model/Check13.glob model/Check13.v.beautified model/Check13.required_vo: model/Check13.v model/NetModel.vo
 model/Check13.vio: model/Check13.v model/NetModel.vio
 model/Check13.vos model/Check13.vok model/Check13.required_vos: model/Check13.v model/NetModel.vos
+proofs/RttProofs.vo proofs/RttProofs.glob proofs/RttProofs.v.beautified proofs/RttProofs.required_vo: proofs/RttProofs.v model/Rtt.vo
+proofs/RttProofs.vio: proofs/RttProofs.v model/Rtt.vio
+proofs/RttProofs.vos proofs/RttProofs.vok proofs/RttProofs.required_vos: proofs/RttProofs.v model/Rtt.vos
 proofs/CallsProofs.vo proofs/CallsProofs.glob proofs/CallsProofs.v.beautified proofs/CallsProofs.required_vo: proofs/CallsProofs.v gen/Params.vo model/Bytes.vo model/PutQuery.vo model/Calls.vo
 proofs/CallsProofs.vio: proofs/CallsProofs.v gen/Params.vio model/Bytes.vio model/PutQuery.vio model/Calls.vio
 proofs/CallsProofs.vos proofs/CallsProofs.vok proofs/CallsProofs.required_vos: proofs/CallsProofs.v gen/Params.vos model/Bytes.vos model/PutQuery.vos model/Calls.vos
